@@ -320,6 +320,21 @@ class Bounds:
             return None
         if k == "deref":
             return self.ub(e[1], seen, depth + 1, at)
+        if k == "field" and isinstance(e[1], tuple) and e[1][0] == "local" and str(e[2]).isdigit():
+            # component of a tuple-valued local assigned in several branches
+            if e[1][1] in seen:
+                return CYC
+            bs = []
+            for _, _, d in self.fn.def_exprs(e[1][1], at=at):
+                if d[0] == "tuple" and int(e[2]) < len(d[1]):
+                    b = self.ub(d[1][int(e[2])], seen | {e[1][1]}, depth + 1, at)
+                    if b is None:
+                        return None
+                    if b != CYC:
+                        bs.append(b)
+                else:
+                    return None
+            return max(bs) if bs else CYC
         if k == "field":
             # enumerate index of an iterator over the needle inside the slab-guarded region
             if self.in_region and self.max_needle is not None and e[2] == "0":
@@ -499,9 +514,22 @@ def rule_bonus_args(ctx):
                     verdict = ("bad", "class argument %s is not a character class of anything" % show(e)[:80])
                     break
                 ch = cc[0][2][0]
-                names = [x[2] for x in walk(ch) if x[0] in ("arg", "local") and x[2]] + [x[2] for x in walk(ch) if x[0] == "field"]
-                from_hay = any("haystack" in nm or nm in ("c_",) for nm in names) or any(x[0] == "call" and "Enumerate" in str(x[1]) for x in walk(ch)) or any(x[0] == "call" and "Zip" in str(x[1]) for x in walk(ch))
-                from_needle = any(nm == "c" or "needle" in nm for nm in names) and not from_hay
+                # role-based (no reliance on parameter names): the candidate's own character is an element the
+                # loop iterator yielded, or a slice element indexed by something the iterator yielded; the
+                # needle's character is a scalar parameter or a constant-indexed element of a slice parameter
+                def from_iter(e_, depth=0):
+                    for x in walk(e_):
+                        if x[0] == "call" and str(x[1]).endswith("::next"):
+                            return True
+                        if x[0] == "local" and depth < 3:
+                            for _, _, d_ in fn.def_exprs(x[1]):
+                                if from_iter(d_, depth + 1):
+                                    return True
+                    return False
+                from_hay = from_iter(ch) or any(x[0] == "index" and x[2][0] != "const" for x in walk(ch))
+                scalar_arg = any(x[0] == "arg" and fn.b["locals"][x[1]]["ty"] in ("u8", "char") for x in walk(ch))
+                const_idx = any((x[0] == "index" and x[2][0] == "const") or x[0] == "cindex" for x in walk(ch))
+                from_needle = (scalar_arg or const_idx) and not from_hay
                 if from_hay:
                     continue
                 if from_needle:
@@ -525,7 +553,7 @@ def rule_bonus_args(ctx):
                                     srcs.add("insensitive")
                                 elif "Memchr<" in nm or "Memchr::<" in nm or nm.endswith("Memchr::new") or "memmem::find_iter" in nm or "FindIter" in nm:
                                     srcs.add("sensitive")
-                            if x[0] == "arg" and x[2] not in ("self", "haystack", "needle", "c"):
+                            if x[0] == "arg" and "Iterator" in fn.b["locals"][x[1]]["ty"]:
                                 srcs.add("param:" + str(x[2]))
                     if srcs == {"sensitive"}:
                         continue
